@@ -130,6 +130,12 @@ def _eq_variant(cls, kind):
     if kind == "falsy":
         # collection-like listener, empty (falsy) when it is attached
         return type(cls.__name__, (cls,), {"__len__": lambda self: 0})
+    if kind == "equal":
+        # every listener of the scenario compares equal to every other one (and hashes alike),
+        # whatever its class: they are still distinct listeners
+        return type(cls.__name__, (cls,), {
+            "_all_equal": True, "__hash__": lambda self: 1,
+            "__eq__": lambda self, other: getattr(other, "_all_equal", False)})
     ns = {"__eq__": lambda self, other: isinstance(other, type(self).__mro__[1])}
     ns["__hash__"] = None if kind == "unhashable" else (lambda self: 1)
     return type(cls.__name__, (cls,), ns)
